@@ -192,6 +192,11 @@ def e2e_spec(draw):
         # (slow requests stay in flight while the same threads issue many short ones after them)
         nreq = draw(st.integers(40, 120))
         reqs = [{'payload': draw(SMALL_OBJ), 'delay_ms': draw(st.sampled_from([0, 1, 1, 5, 5, 60, 200])), 'block_ms': 0, 'fail': draw(st.sampled_from([False] * 9 + [True, 'TimeoutError']))} for _ in range(nreq)]
+        if draw(st.booleans()):
+            # impatient callers: some slow requests are given up after 20 ms; their late responses must be discarded, not delivered elsewhere
+            for r in reqs:
+                if r['delay_ms'] >= 60 and draw(st.booleans()):
+                    r['rt_ms'] = 20
         nthreads = draw(st.integers(3, 8))
         owners = [draw(st.sampled_from(list(range(nthreads)) * 3 + [nthreads])) for _ in range(nreq)]
         return {'reqs': reqs, 'conns': draw(st.sampled_from([1, 1, 2])), 'nthreads': nthreads, 'owners': owners, 'gap_ms': 0}
@@ -231,7 +236,7 @@ def run_e2e(spec):
                     if spec['gap_ms']:
                         time.sleep(spec['gap_ms'] / 1000.0)
                     try:
-                        results[i] = ('value', client.request('/', (i, r['payload'], r['delay_ms'], r['block_ms'], r['fail']), response_timeout=60))
+                        results[i] = ('value', client.request('/', (i, r['payload'], r['delay_ms'], r['block_ms'], r['fail']), response_timeout=r['rt_ms'] / 1000.0 if r.get('rt_ms') else 60))
                     except BaseException as e:
                         results[i] = ('exc', e)
 
@@ -260,6 +265,8 @@ def run_e2e(spec):
 
     def judge(i, kind, y):
         r = spec['reqs'][i]
+        if r.get('rt_ms') and kind == 'exc' and type(y).__name__ == 'TimeoutError' and not y.args:
+            return  # the impatient caller gave up (legal whenever the response had not arrived within its 20 ms)
         if r['fail']:
             if kind != 'exc' or type(y).__name__ != ('TimeoutError' if r['fail'] == 'TimeoutError' else 'HandlerError') or tuple(y.args) != ('handler failed', i):
                 raise Violation('wrong_response', f"request {i} (handler raises): got {kind} {_describe(y)}", signature=['wrong_response', 'exc'])
